@@ -1,3 +1,4 @@
+import Proofs.EcdsaInstToy
 import Props.C04
 import Props.C03
 /-!
@@ -81,40 +82,47 @@ theorem retry_loops_agree {β : Type} (ops : PointOps P) (d : ℤ) (dg : Bytes) 
 variable {𝔾 : Type} [AddCommGroup 𝔾]
 variable {ops : PointOps P} {G : 𝔾} {den : P → 𝔾} {xc : 𝔾 → Option ℤ} {valid : P → Prop}
 
-/-- **C04 ∘ C03.**  If `sign_digest_deterministic(digest, extra_entropy, allow_truncate=True)` returns `(r, s, order)`
-(before encoding) for the secret `x` on a curve of order `q`, then for some `m ≥ 0`: the first `m` acceptable elements
-of the RFC 6979 stream (§3.2 h, for `(q, x, digest, extra)`) each made ECDSA signing hit `r = 0` or `s = 0`; `k` is
-the `(m+1)`-th acceptable element, `1 ≤ k < q`; and `(r, s)` is the standard ECDSA signature for that nonce:
-`r = x(k•G) mod q`, `s = k⁻¹(e + r·x) mod q` with `e` the leftmost `min(8·len, bitlen q)` bits of the digest. -/
+/-- **C04 ∘ C03, either truncation flag.**  If `sign_digest_deterministic(digest, extra_entropy, allow_truncate=allow)`
+returns `(r, s, order)` (before encoding) for the secret `x` on a curve of order `q`, then for some `m ≥ 0`: the first `m`
+acceptable elements of the RFC 6979 stream (§3.2 h, for `(q, x, digest, extra)`) each made ECDSA signing hit `r = 0` or
+`s = 0`; `k` is the `(m+1)`-th acceptable element, `1 ≤ k < q`; and `(r, s)` is the standard ECDSA signature for that
+nonce: `r = x(k•G) mod q`, `s = k⁻¹(e + r·x) mod q`, with `e = C03.digestInt` (leftmost `min(8·len, bitlen q)` bits of the
+digest when truncation is allowed; the digest itself otherwise — then the digest is no longer than the order, since a
+longer one raises `BadDigestError` instead of returning). -/
 theorem deterministic_signature_is_standard (C : PointOpsCorrect ops G den xc valid)
     (hmac : Bytes → Bytes → Bytes) (hlen : ℕ) (hh : 0 < hlen) (hlenH : ∀ k m, (hmac k m).length = hlen)
-    (x : ℕ) (dg extra : Bytes) (hne : dg ≠ []) (kfuel fuel : ℕ) (r s o : ℤ)
-    (h : Rfc6979.signDigestDeterministic hmac hlen ops.order.toNat x dg extra (innerSign ops (x : ℤ) dg true) kfuel fuel
+    (x : ℕ) (dg extra : Bytes) (hne : dg ≠ []) (allow : Bool) (kfuel fuel : ℕ) (r s o : ℤ)
+    (h : Rfc6979.signDigestDeterministic hmac hlen ops.order.toNat x dg extra (innerSign ops (x : ℤ) dg allow) kfuel fuel
           = some (.ok (r, s, o))) :
     ∃ (m k : ℕ),
       (∀ i, i < m → ∃ ki, Rfc.IsNthAcceptable ops.order.toNat (Rfc.stream hmac hlen ops.order.toNat x dg extra) i ki ∧
-          innerSign ops (x : ℤ) dg true ki = .error .rsZero) ∧
+          innerSign ops (x : ℤ) dg allow ki = .error .rsZero) ∧
       Rfc.IsNthAcceptable ops.order.toNat (Rfc.stream hmac hlen ops.order.toNat x dg extra) m k ∧
-      1 ≤ k ∧ (k : ℤ) < ops.order ∧ o = ops.order ∧
+      1 ≤ k ∧ (k : ℤ) < ops.order ∧ o = ops.order ∧ (allow = false → dg.length ≤ baselen ops) ∧
       ∃ xk, xc ((k : ℤ) • G) = some xk ∧ r = xk % ops.order ∧
-        s = invZ ops.order k * (((bitsToNat ((bytesToBits dg).take (min (8 * dg.length) (bitLen ops.order).toNat)) : ℕ) : ℤ)
-              + r * (x : ℤ)) % ops.order := by
+        s = invZ ops.order k * (C03.digestInt ops.order dg allow + r * (x : ℤ)) % ops.order := by
   have hn := C.n_pos
   obtain ⟨m, k, hrej, hacc, k1, k2, hsig⟩ :=
     C04.sign_deterministic_uses_next_candidate hmac hlen hh hlenH ops.order.toNat x dg extra _ kfuel fuel (r, s, o) h
   have k2' : (k : ℤ) < ops.order := by omega
   refine ⟨m, k, hrej, hacc, k1, k2', ?_⟩
-  obtain ⟨xk, hxk, hstd⟩ := C03.sign_digest_eq_standard C (x : ℤ) (k : ℤ) ⟨by omega, k2'⟩ dg hne
-    (fun _ => .error .other) (fun r s o => (.ok (r, s, o) : Res (ℤ × ℤ × ℤ)))
+  obtain ⟨xk, hxk, hstd⟩ := C03.sign_digest_eq_standard_flag C (x : ℤ) (k : ℤ) ⟨by omega, k2'⟩ dg hne
+    (fun _ => .error .other) (fun r s o => (.ok (r, s, o) : Res (ℤ × ℤ × ℤ))) allow
   unfold innerSign at hsig
   rw [hstd] at hsig
-  simp only at hsig
   split at hsig
   · cases hsig
-  · injection hsig with hsig
-    injection hsig with h1 h2
-    injection h2 with h2 h3
-    exact ⟨h3.symm, xk, hxk, h1.symm, by rw [← h2, ← h1]⟩
+  · rename_i hlen'
+    simp only at hsig
+    split at hsig
+    · cases hsig
+    · injection hsig with hsig
+      injection hsig with h1 h2
+      injection h2 with h2 h3
+      refine ⟨h3.symm, ?_, xk, hxk, h1.symm, by rw [← h2, ← h1]⟩
+      intro ha
+      by_contra hc
+      exact hlen' ⟨ha, by omega⟩
 
 /-- the same signature is what the C01/C03 model of the whole method returns (after `sigencode`), so C01's
 `sign_digest_deterministic_then_verify` applies to it -/
@@ -127,6 +135,41 @@ theorem deterministic_models_agree {β : Type} (ops : PointOps P) (hmac : Bytes 
       = some (finish enc res) := by
   unfold Rfc6979.signDigestDeterministic at h
   exact retry_loops_agree ops (x : ℤ) dg allow _ enc fuel 0 res (by simpa using h)
+
+/-- **on the model of the real point classes** (`OnCurve.ops c` = what the driver executes; hypotheses `OnCurve.Matches`):
+the deterministic signature is the standard ECDSA signature at the RFC 6979 nonce, `r = x(k•G) mod n` in Mathlib's curve
+group -/
+theorem deterministic_signature_is_standard_on_curve {p : ℕ} [Fact p.Prime] {a b : ℤ} (c : Affine.Crv)
+    (C : GroupInterface.Ctx p a b) (M : OnCurve.Matches c C)
+    (hmac : Bytes → Bytes → Bytes) (hlen : ℕ) (hh : 0 < hlen) (hlenH : ∀ k m, (hmac k m).length = hlen)
+    (x : ℕ) (dg extra : Bytes) (hne : dg ≠ []) (allow : Bool) (kfuel fuel : ℕ) (r s o : ℤ)
+    (h : Rfc6979.signDigestDeterministic hmac hlen c.n.toNat x dg extra (innerSign (OnCurve.ops c) (x : ℤ) dg allow) kfuel fuel
+          = some (.ok (r, s, o))) :
+    ∃ (m k : ℕ),
+      (∀ i, i < m → ∃ ki, Rfc.IsNthAcceptable c.n.toNat (Rfc.stream hmac hlen c.n.toNat x dg extra) i ki ∧
+          innerSign (OnCurve.ops c) (x : ℤ) dg allow ki = .error .rsZero) ∧
+      Rfc.IsNthAcceptable c.n.toNat (Rfc.stream hmac hlen c.n.toNat x dg extra) m k ∧
+      1 ≤ k ∧ (k : ℤ) < c.n ∧ o = c.n ∧ (allow = false → dg.length ≤ baselen (OnCurve.ops c)) ∧
+      ∃ xk, OnCurve.xcOf ((k : ℤ) • C.G) = some xk ∧ r = xk % c.n ∧
+        s = invZ c.n k * (C03.digestInt c.n dg allow + r * (x : ℤ)) % c.n :=
+  deterministic_signature_is_standard (OnCurve.pointOpsCorrect c C M) hmac hlen hh hlenH x dg extra hne allow kfuel fuel r s o h
+
+/-! ### evaluated through rand's `generateK` and the real point model (closed instance)
+Toy curve y² = x³ + x + 6 over 𝔽₁₁, G = (2,7), n = 13; secret 1, digest 50, HMAC stand-in `C04.toyHmac` (2-byte output):
+`generate_k` yields 10 for retry_gen 0 and again 10 for retry_gen 1 — both give s = 0 (`RSZeroError`, retried) — then 9,
+which signs: (r, s) = (10, 6).  Both models of the retry loop agree, the second one through `sigencode_der`. -/
+set_option maxRecDepth 8000 in
+example :
+    (List.range 3).map (fun i => generateK C04.toyHmac 2 13 1 [80] (i : ℤ) [] 60) = [some (.ok 10), some (.ok 10), some (.ok 9)]
+    ∧ innerSign (OnCurve.ops OnCurve.toyCrv) 1 [80] true 10 = .error .rsZero
+    ∧ Rfc6979.signDigestDeterministic C04.toyHmac 2 13 1 [80] [] (innerSign (OnCurve.ops OnCurve.toyCrv) 1 [80] true) 60 6
+        = some (.ok (10, 6, 13))
+    ∧ Ecdsa.signDigestDeterministic (OnCurve.ops OnCurve.toyCrv) 1 [80]
+        (genOfRfc (fun retry => generateK C04.toyHmac 2 13 1 [80] retry [] 60)) encDer true 6 0
+        = some (.ok [48, 6, 2, 1, 10, 2, 1, 6]) := by
+  decide +kernel
+
+example : ∃ C : GroupInterface.Ctx 11 1 6, OnCurve.Matches OnCurve.toyCrv C := OnCurve.toy_matches
 
 /-! ### non-vacuity: toy group of order 7 (C03's `Toy.ops`), secret 3, digest 20 (e = 1); a `generate_k` stream 2, 3, …:
 nonce 2 gives s = 0 (`RSZeroError`, retried), nonce 3 gives (3, 1) — in both models -/
